@@ -110,7 +110,7 @@ WMAX = B(3, 4)
 
 
 @obligation(quick=240, thorough=600, partitions_quick=[f"w == {w}" for w in (1, 2, 3)],
-            partitions_thorough=[f"w == {w} and it == {i}" for w in (1, 2, 3, 4) for i in (1, 2, 3, 4)],
+            partitions_thorough=[f"it == {i}" for i in (1, 2, 3, 4)],   # (w > it) is the class of KF-C14-1: split on it only
             what="waiter timeout w vs idle_timeout it (every order, ties), nobody answers: the step gets its TimeoutError and the handler "
                  "leaves 'running' (completed, result 'timeout')",
             bounds={"w": "1..4", "idle_timeout": "1..4"})
